@@ -1,0 +1,12 @@
+//go:build verif
+
+package sseutil
+
+// VerifHook is installed by the parent package's VerifSetHook.
+var VerifHook func(point string, kv ...interface{})
+
+func verifEvent(point string, kv ...interface{}) {
+	if f := VerifHook; f != nil {
+		f(point, kv...)
+	}
+}
